@@ -281,7 +281,9 @@ func checkReduction[T Elem](k Kind, op *Op[T], got complex128, xs, ys []float64,
 				}
 			}
 		}
-		if !vk.SameBits(real(got), norm) {
+		// the value must be exactly the documented one; the sign of a zero
+		// result is not asserted (max(t-s, s-t) of the assembly gives -0 for s=-0, t=+0)
+		if !vk.SameBits(real(got), norm) && !(real(got) == 0 && norm == 0) {
 			key := "/mismatch"
 			for i := range xs {
 				if math.IsNaN(ys[i] - xs[i]) {
@@ -397,8 +399,8 @@ var _ = fmt.Sprint
 // the property promises reductions only within the rounding bound. Oracle:
 // padding bit-identical (<fn>/outside-write); every prefix of finite data
 // within 2(i+4)u*sum_{j<=i}|s[j]| of the double-double prefix sum (products:
-// relative 2(i+4)u, while the exact prefix product stays away from the
-// over/underflow thresholds); the sign of a zero result is not asserted; of the
+// relative 2(i+4)u, finite-class data only and while the exact prefix product
+// stays away from the over/underflow thresholds); the sign of a zero result is not asserted; of the
 // special values only the one behaviour common to every association order is
 // asserted: once a NaN has entered the prefix every later element is NaN
 // (<fn>/nan). Prefixes whose sum of absolute values reaches the overflow
@@ -445,6 +447,12 @@ func checkPrefix[T Elem](k Kind, op *Op[T], vd *Vec[T], exp []T, xs []float64, c
 			}
 			want, tol = sum.Float(), vk.SumBound(i+1, u, abs.Float())+float64(2*i+4)*eta
 		} else {
+			if cls != ClsFinite {
+				// products of extreme values: a partial product formed by another
+				// association may under/overflow although the prefix does not
+				live = false
+				continue
+			}
 			h := ph * x
 			l := math.FMA(ph, x, -h) + pl*x
 			ph, pl = h+l, l-((h+l)-h)
